@@ -1,5 +1,6 @@
 import AbraProofs.Lemmas.LexLocal
 import AbraProofs.Properties.C31
+import AbraModel.TopLevel
 /-!
 # C29 — comments and optional separators never change a program
 
@@ -358,3 +359,60 @@ example : parseExpr [.lbrack, .atom (.int 1), .comma, .atom (.int 2), .nl, .atom
   rfl
 
 end Abra.Pratt
+
+namespace Abra.TopLevel
+
+/-- how one top-level item is written: blank lines in front, the item, optionally `;` directly behind
+    it, then any number of line breaks -/
+structure ItemLayout where
+  lead : Nat
+  semi : Bool
+  trail : Nat
+
+def ItemLayout.toks (l : ItemLayout) : List TTok :=
+  List.replicate l.lead .nl ++ .item :: ((if l.semi then [.semi] else []) ++ List.replicate l.trail .nl)
+
+theorem accepted_nls (k : Nat) (r : List TTok) : accepted (List.replicate k .nl ++ r) = accepted r := by
+  induction k with
+  | zero => rfl
+  | succ k ih => simp [List.replicate_succ, accepted, ih]
+
+/-- **Terminators at top level.** Every file made of items, each optionally terminated by `;` and
+    followed by any number of line breaks (also after the LAST item, before the end of input, and
+    also with no line break at all behind the final `;`), is accepted: the optional `;` never
+    decides whether a file parses. -/
+theorem C29_toplevel_terminator (ls : List ItemLayout) : accepted (ls.flatMap ItemLayout.toks) = true := by
+  induction ls with
+  | nil => rfl
+  | cons l ls ih =>
+    simp only [List.flatMap_cons, ItemLayout.toks, List.append_assoc, accepted_nls]
+    cases l.semi
+    · simp only [Bool.false_eq_true, if_false, List.nil_append, List.cons_append]
+      cases ht : l.trail with
+      | zero =>
+        simp only [List.replicate_zero, List.nil_append]
+        cases hr : ls.flatMap ItemLayout.toks with
+        | nil => simp [accepted]
+        | cons t r =>
+          rw [hr] at ih
+          cases t with
+          | semi => simp [accepted] at ih
+          | item => simpa [accepted] using ih
+          | nl => simpa [accepted] using ih
+      | succ k =>
+        rw [List.replicate_succ]
+        simp only [List.cons_append, accepted]
+        rw [accepted_nls]; exact ih
+    · simp only [if_true, List.cons_append, List.nil_append, accepted]
+      rw [accepted_nls]; exact ih
+
+/-- …while a `;` that does not directly follow an item is a diagnostic: at the start of the file,
+    on a line of its own, or doubled. -/
+theorem C29_stray_semicolon_rejected (r : List TTok) (k : Nat) :
+    accepted (.semi :: r) = false ∧ accepted (.item :: .semi :: .semi :: r) = false ∧
+      accepted (.item :: .nl :: (List.replicate k .nl ++ .semi :: r)) = false := by
+  refine ⟨rfl, rfl, ?_⟩
+  simp only [accepted]
+  rw [accepted_nls]; rfl
+
+end Abra.TopLevel
